@@ -362,10 +362,14 @@ class MQPart:
                     logs[who].append(["raise", [tn, strip(tgt)], outs, e[3], local(who, samples[who])])
             if prev is not None and not interfere:
                 for i in range(n):
-                    if i != who and prev[i][7] != samples[i][7] or (i != who and prev[i][:5] != samples[i][:5]):
+                    if i == who:
+                        continue
+                    names = ["queue_count/queue_byte_size", "current_packet", "packets_received", "len(packets_available.items)",
+                             "total_packets", None, "store lengths", "stores keys / counter dicts"]
+                    ch = [(names[j], prev[i][j], samples[i][j]) for j in (0, 1, 2, 3, 4, 6, 7) if prev[i][j] != samples[i][j]]
+                    if ch:
                         interfere.append(f"instances-interfere: a {kind} action of instance {tags[who] if who is not None else '-'} "
-                                         f"({e[1]}) changed the public state of instance {tags[i]}: "
-                                         f"{[prev[i][0], prev[i][1], prev[i][7]]} -> {[samples[i][0], samples[i][1], samples[i][7]]}")
+                                         f"({e[1]}) changed {ch[0][0]} of instance {tags[i]}: {ch[0][1]} -> {ch[0][2]}")
                         break
             prev = samples
         rest = [type(e[3]).__name__ for e in env._queue]
